@@ -467,7 +467,7 @@ func taintPath(c *core.Ctx, t *core.Taint, v ssa.Value) []string {
 		}
 		out = append(out, fmt.Sprintf("%s: %s = %s  (%s)", fn, p.Name(), p.String(), c.Pos(p.Pos())))
 	}
-	if len(out) > 14 {
+	if len(out) > 60 {
 		out = append(out[:7], append([]string{"..."}, out[len(out)-6:]...)...)
 	}
 	return out
